@@ -153,7 +153,7 @@ def run_tlc(module, cfg, wd, workers=12, timeout=1800, consts=None, env_extra=No
         except subprocess.TimeoutExpired:
             raise ToolError(f"TLC timeout on {module} after {timeout}s")
     res = {"out_path": out_path, "states": 0, "distinct": 0, "ok": False, "errors": [], "wall_s": time.time() - t0,
-           "rc": r.returncode}
+           "rc": r.returncode, "actions": {}}
     with open(out_path, errors="replace") as f:
         for line in f:
             if line.startswith("<<"):
@@ -162,6 +162,10 @@ def run_tlc(module, cfg, wd, workers=12, timeout=1800, consts=None, env_extra=No
             if m:
                 res["states"] = int(m.group(1).replace(",", ""))
                 res["distinct"] = int(m.group(2).replace(",", ""))
+            if coverage:
+                m = re.match(r"^<(\w+) line \d+, col \d+ to line \d+, col \d+ of module (\w+)>: (\d+):(\d+)\s*$", line)
+                if m:      # action name -> (distinct states found through it, states generated); the last report wins
+                    res["actions"][m.group(1)] = (int(m.group(3)), int(m.group(4)))
             if "Model checking completed. No error has been found." in line:
                 res["ok"] = True
             if line.startswith("Error:") or "is violated" in line or "Exception" in line:
@@ -276,8 +280,14 @@ class Verdict:
     def add_mc(self, res, what):
         self.cov["states"] += res["distinct"]
         self.cov["transitions"] += res["states"]
-        self.cov["stages"].append({"stage": "MC " + what, "distinct_states": res["distinct"],
-                                   "transitions": res["states"], "wall_s": round(res["wall_s"], 1)})
+        st = {"stage": "MC " + what, "distinct_states": res["distinct"], "transitions": res["states"], "wall_s": round(res["wall_s"], 1)}
+        if res.get("actions"):
+            # vacuity guard: an action of the specification that was never taken in this configuration means part of the model was not exercised
+            st["action_coverage"] = {a: c[1] for a, c in sorted(res["actions"].items())}
+            dead = [a for a, c in res["actions"].items() if c[1] == 0 and a != "Init"]
+            if dead:
+                self.notes.append(f"vacuity: actions never taken in {what.split(':')[0]}: {', '.join(sorted(dead))}")
+        self.cov["stages"].append(st)
 
     def mismatch(self, stage, item, sigtext=None):
         """Classify one mismatch (a dict with at least fam/name/in or a free-form description)."""
